@@ -680,6 +680,11 @@ C16_SowWindow == (l > 1 /\ Ev.ev = "sub.crop" /\ Ev.sowday /\ Ev.growing /\ Cfg.
    LET w == Gen.win[Ev.akf] IN
    /\ (w[1] > 0 => Ev.zeit >= w[1] /\ Ev.zeit <= w[2])
    /\ (Len(hist.harv) > 0 => Ev.zeit > hist.harv[Len(hist.harv)][1])
+\* a fixed sowing date (automatic sowing off, or a table row without a sowing window) is kept whatever the harvest is
+\* (fixed or automatic): in the domain the date lies after the latest harvest date of the preceding crop
+C16_SowFixed == (l > 1 /\ Ev.ev = "sub.crop" /\ Ev.sowday /\ Ev.growing /\ Has(Gen, "rot") /\ Has(Gen, "win") /\ Ev.akf >= 1 /\ Ev.akf + 1 <= Len(Gen.rot)
+                 /\ (~Cfg.autoMan \/ Gen.win[Ev.akf][1] = 0)) =>
+   Ev.zeit = Gen.rot[Ev.akf + 1][1]
 \* automatic harvest not later than the latest harvest date
 C16_HarvestWindow == (l > 1 /\ Ev.ev = "sub.nitro" /\ Ev.finished /\ Cfg.autoHar /\ Has(Gen, "win")) =>
    LET w == Gen.win[Crop.akf] IN w[3] > 0 => Ev.zeit <= w[3]
@@ -693,7 +698,7 @@ C16_AutoN == (AfterMineral /\ Cfg.autoFert) => LGeNeg(D(Minr, Crop, "DSUMM"), To
 \* ... and the latest harvest date is kept also by a crop that did not get anywhere: a sown entry is never still the current
 \* entry of the rotation after its latest harvest date (the harvest of the day moves the rotation on before the next day)
 C16_HarvestDue == (l > 1 /\ Ev.ev = "sub.crop" /\ Ev.akf >= 1 /\ Ev.saat > 0 /\ Ev.ernte2 > 0 /\ Ev.zeit >= Ev.saat) => Ev.zeit <= Ev.ernte2
-C16_All == C16_HarvestDue /\ C16_Order /\ C16_CropRecord /\ C16_SowWindow /\ C16_HarvestWindow /\ C16_AutoIrrigation /\ C16_AutoN
+C16_All == C16_SowFixed /\ C16_HarvestDue /\ C16_Order /\ C16_CropRecord /\ C16_SowWindow /\ C16_HarvestWindow /\ C16_AutoIrrigation /\ C16_AutoN
 
 \* ---------------------------------------------------------------------------------------------
 Alias == [l |-> l, pc |-> pc, nsub |-> nsub,
